@@ -817,6 +817,8 @@ val md_exp_ok : (text -> bool) -> nat -> text -> bool
 
 val md_body_ok : (text -> bool) -> nat -> bline list -> bool
 
+val lang_of : text -> text
+
 val lang_ok : text -> bool
 
 val cfg_text_ok : (text -> bool) -> text -> bool
